@@ -551,7 +551,7 @@ func (m *omMachine) classes() []string {
 // c15Sites lists the ordered-by-user lists of the variants named by the property.
 func c15Sites() []*listSite {
 	var out []*listSite
-	for _, v := range variants.Pick("vtu", "vtw", "vocc", "vocu") {
+	for _, v := range variants.Pick("vtu", "vtw", "vocc", "vocu", "vtu2") {
 		for _, s := range listsOf(v, model.FOrdList) {
 			if s.reach {
 				out = append(out, s)
